@@ -20,7 +20,7 @@ encodeBase64 = Unit(
 ''', [('dest', 'vf_buf + 4 * (i / 3)')])]),
     ],
     text=r'''
-#include "string.h"
+#include "vf_string.h"
 #include "b64.h"
 int g_k;
 ''' + STRING_HELPERS_C + r'''
